@@ -1,24 +1,56 @@
-"""coarse structural features of a generated network, appended to violation buckets so that a recorded known finding masks
+"""coarse structural features of a generated case, appended to violation buckets so that a recorded known finding masks
 only the construct it was recorded for (a different violation of the same property is still reported)"""
 
 SLICERS = ("SLICE", "STRIDED_SLICE", "SPLIT", "SPLIT_V")
 
 
-def tags(spec):
+def tags(spec, cfg=None):
     out = []
     prod = {}
     for o in spec["ops"]:
         for t in o["outputs"]:
             prod[t] = o
+
+    def data_input(o):
+        if not o["inputs"]:
+            return None
+        idx = {"SPLIT": 1, "TRANSPOSE_CONV": 2}.get(o["code"], 0)
+        return o["inputs"][idx] if idx < len(o["inputs"]) else None
+
+    def source(o, through=("PAD",)):
+        t = data_input(o)
+        src = prod.get(t)
+        while src is not None and src["code"] in through:
+            src = prod.get(data_input(src))
+        return src
+
     for o in spec["ops"]:
         f = (o.get("opts") or {}).get("fields", {})
-        src = prod.get(o["inputs"][0]) if o["inputs"] and o["inputs"][0] in prod else None
-        if o["code"] in ("SPLIT",) and len(o["inputs"]) > 1:
-            src = prod.get(o["inputs"][1])
+        src = source(o)
         strided = f.get("StrideW", 1) > 1 or f.get("StrideH", 1) > 1
         if src is not None and src["code"] in SLICERS:
             if strided and o["code"] in ("CONV_2D", "DEPTHWISE_CONV_2D", "MAX_POOL_2D", "AVERAGE_POOL_2D"):
                 out.append("slice-feeds-strided-op")
             if o["code"] == "SOFTMAX":
                 out.append("slice-feeds-softmax")
-    return "".join("+" + t for t in sorted(set(out)))
+            if o["code"] == "TRANSPOSE_CONV":
+                out.append("slice-feeds-tconv")
+            if o["code"] in ("RESIZE_BILINEAR", "RESIZE_NEAREST_NEIGHBOR"):
+                out.append("slice-feeds-resize")
+        direct = prod.get(data_input(o))
+        if o["code"] in ("RESHAPE", "SQUEEZE", "EXPAND_DIMS") and direct is not None:
+            out.append("reshape-after-" + direct["code"])
+        if direct is not None and direct["code"] in ("RESHAPE", "SQUEEZE", "EXPAND_DIMS"):
+            out.append(o["code"] + "-after-reshape")
+        if o["code"] == "RESIZE_NEAREST_NEIGHBOR" and f.get("AlignCorners"):
+            out.append("resize-nn-align-corners")
+        if o["code"] == "CONCATENATION" and len(set(o["inputs"])) < len(o["inputs"]):
+            out.append("concat-duplicate-input")
+        if o["code"] == "CONCATENATION" and spec["tensors"][o["outputs"][0]]["shape"][:1] not in ([1], []):
+            out.append("concat-batch>1")
+    consumed = set(t for o in spec["ops"] for t in o["inputs"])
+    if any(t in consumed for t in spec["outputs"]):
+        out.append("output-has-consumer")
+    if cfg is not None and cfg.get("arena_cache_size") is not None:
+        out.append("explicit-arena-cache-size")
+    return tuple(sorted(set(out)))
